@@ -1321,6 +1321,22 @@ func (m *Model) ruleREGISTRY(r *Results) {
 			}
 			r.check(ok, rule, name+" / files removed on every path", pos, "deleting a bucket always reaches the removal of its files", "deleting a bucket can return without removing its files (e.g. when it is no longer registered): CloseAndDelete reports success but the data survives and can be reopened")
 		}
+		// (c'') the files that are removed are those of the bucket the caller handed in - the handle
+		// that was just shut down -, not of whatever is registered under the name by now
+		for _, c := range fileDeletes {
+			for _, a := range c.Common().Args {
+				ld, ok := stripConv(a).(*ssa.UnOp)
+				if !ok || ld.Op != token.MUL {
+					continue
+				}
+				fa, ok := ld.X.(*ssa.FieldAddr)
+				if !ok {
+					continue
+				}
+				_, isParam := stripConv(fa.X).(*ssa.Parameter)
+				r.check(isParam, rule, name+" / the files removed are the caller's bucket's", m.instrPos(c), "the location handed to the file removal is a field of the bucket the method was given", "the location whose files are removed is not read from the bucket the caller handed in (it may come from the registry entry): when the name has been registered again for another location, closing and deleting a stale handle removes the files of the live bucket")
+			}
+		}
 		// (c') ... and it drops the registry entry on every path too, whether or not the files could
 		// be removed: an entry left behind names a store that was shut down, and the next open of
 		// the name is handed a copy of it
